@@ -453,8 +453,9 @@ class LocalScheduleInterpreter(OneShotTask):
         current_value, next_transition = self.eval(current_date, current_time)
         if _debug: LocalScheduleInterpreter._debug("    - current_value, next_transition: %r, %r", current_value, next_transition)
 
-        ### set the present value
-        self.sched_obj.presentValue = current_value
+        ### set the present value, unless outside of the effective period
+        if current_value is not None:
+            self.sched_obj.presentValue = current_value
 
         # compute the time of the next transition
         transition_time = datetime_to_time(current_date, next_transition)
@@ -465,16 +466,17 @@ class LocalScheduleInterpreter(OneShotTask):
     def eval(self, edate, etime):
         """Evaluate the schedule according to the provided date and time and
         return the appropriate present value, or None if not in the effective
-        period."""
+        period, along with the time of the next transition."""
         if _debug: LocalScheduleInterpreter._debug("eval %r %r", edate, etime)
 
         # reference the schedule object
         sched_obj = self.sched_obj
         if _debug: LocalScheduleInterpreter._debug("    sched_obj: %r", sched_obj)
 
-        # verify the date falls in the effective period
+        # verify the date falls in the effective period, if it does not then
+        # there is no value and it needs to be checked again tomorrow
         if not match_date_range(edate, sched_obj.effectivePeriod):
-            return None
+            return None, (24, 0, 0, 0)
 
         # the event priority is a list of values that are in effect for
         # exception schedules with the special event priority, see 135.1-2013
